@@ -1574,7 +1574,10 @@ def shrink(sc):
                         yield dict(sc, lines=lines[:i] + [dict(ln, **{k: v})]
                                    + lines[i + 1:])
         for ti, tg in enumerate(sc['targets']):
-            if tg.get('lines') and not tg.get('fragment'):
+            if tg.get('lines') and not tg.get('fragment') and \
+                    len(tg['lines']) <= 400:
+                # (a file that is big on purpose stays as it is: every
+                # attempt to cut it costs seconds and cannot succeed)
                 for c in core.ddmin_list(tg['lines']):
                     yield dict(sc, targets=sc['targets'][:ti] + [
                         dict(tg, lines=c)] + sc['targets'][ti + 1:])
